@@ -52,6 +52,10 @@ var Verbs = []string{"run", "stop"}
 var Suffixes = []string{".foo", "_x", "-bar"}
 var VarVals = []string{"1", "42", "abc", "x", "a.b", "q.foo", "y_x", "Z9", "\xc3\xa9", "a:b", "%41", " ", "b", "users", "a", "z-bar", "12:run", "{v}", "*"}
 var Methods = []string{"GET", "POST", "PUT", "DELETE", "PATCH", "HEAD", "OPTIONS", "FOO"}
+
+// ExtMethods are extension methods whose names contain one another (PATCH in PROPPATCH, LOCK in
+// UNLOCK, FOO in FOOBAR): a set-valued answer (Allow) must not treat method names as substrings.
+var ExtMethods = []string{"PROPPATCH", "PATCH", "UNLOCK", "LOCK", "FOOBAR", "FOO"}
 var Medias = []string{"application/json", "application/xml", "text/plain", "*/*", "text/html"}
 
 // Opts selects the template forms a stream may use.
@@ -196,6 +200,10 @@ func GenConfig(r *rng.R, o Opts) Config {
 			s.Produces = pickMedia(r, o)
 		}
 		nroutes := 1 + r.Intn(o.MaxRoutes)
+		extFamily := r.Chance(1, 7) // this service declares WebDAV-like extension methods
+		if extFamily && nroutes < 3 {
+			nroutes = 3
+		}
 		for ri := 0; ri < nroutes; ri++ {
 			var rel []Tok
 			if ri > 0 && r.Chance(1, 3) {
@@ -227,7 +235,11 @@ func GenConfig(r *rng.R, o Opts) Config {
 			case len(rel) > 0 && r.Chance(1, 10):
 				relStr += "/"
 			}
-			rd := RouteDecl{ID: rid, Method: r.Pick(Methods[:5+r.Intn(4)]), Rel: relStr,
+			method := r.Pick(Methods[:5+r.Intn(4)])
+			if extFamily {
+				method = r.Pick(ExtMethods)
+			}
+			rd := RouteDecl{ID: rid, Method: method, Rel: relStr,
 				Toks: append(append([]Tok{}, rootToks...), rel...)}
 			rid++
 			rd.Consumes = pickMedia(r, o)
@@ -377,6 +389,9 @@ func GenReq(r *rng.R, o Opts, cfg Config) Req {
 	req.Method = rt.Method
 	if r.Chance(1, 4) {
 		req.Method = r.Pick(Methods)
+	}
+	if r.Chance(1, 16) {
+		req.Method = r.Pick(ExtMethods)
 	}
 	if o.Adversarial && r.Chance(1, 40) {
 		req.Method = r.Pick([]string{"get", "", "Get", "GET ", "TRACE"})
